@@ -12,7 +12,11 @@ from vlib import *
 import gen_punct
 
 PID = 'C19'
-THEOREMS = ['C19_separator_separates', 'C19_relex_spaced', 'C19_punctuator_pairs', 'C19_nonvacuous']
+THEOREMS = ['C19_separator_separates', 'C19_relex_spaced', 'C19_punctuator_pairs', 'C19_nonvacuous',
+            # package eprint (Properties_C19_eprint.v): print_tokens modelled; its output re-lexes to exactly the tokens it was given (any list), idempotence
+            'C19_eprint_tokenizer_output_printable', 'C19_eprint_plain_text_roundtrip', 'C19_eprint_cut', 'C19_eprint_printable_decidable', 'C19_eprint_glued_pair_sound', 'C19_eprint_roundtrip',
+            'C19_eprint_same_tokens', 'C19_eprint_hash_at_line_start', 'C19_eprint_faithful', 'C19_eprint_leading_hash_always_refuted', 'C19_eprint_leading_hash_refuted', 'C19_eprint_print_of_read',
+            'C19_eprint_idempotent', 'C19_eprint_nonvacuous', 'C19_eprint_nonvacuous_mixed', 'C19_eprint_not_printable']
 MODELRUN = os.path.join(VERIF, 'ocaml/modelrun')
 
 def dump(chibi, f, raw, extra=()):
@@ -44,7 +48,7 @@ def main():
         tables = gen_punct.gen(REPO, os.path.join(COQ, 'theories/Gen/PunctTable.v'))
     except GenError as e:
         run.proof_broken.append('translator: ' + str(e))
-    run.check_proofs(deps=['theories/Model/Lexer.vo', 'theories/Proofs/LexerProofs.vo'])
+    run.check_proofs(deps=['theories/Model/Lexer.vo', 'theories/Proofs/LexerProofs.vo'], extra=['eprint'])
     NCORPUS = run_corpus(run, PID, src)          # minimised past failures first
     rc, o, e = sh([os.path.join(VERIF, 'ocaml/build.sh')], timeout=900)
     if rc != 0:
@@ -200,9 +204,15 @@ int f(int a, int b) { int c = -N; int d = 1 P+ 2; int e = a -E- b; int g = F(2)*
     if rc1 or rc2 or rc3 or strip(s1) != strip(s2):
         run.violation(dict(kind='compile-of-E-output-differs', exits=[rc1, rc2, rc3], stderr=(e1 + e2 + e3)[-300:], program=valid,
                            e_output=open(os.path.join(wd, 'valid.i')).read() if os.path.exists(os.path.join(wd, 'valid.i')) else None), dict(area='E-compile'))
+    # ---------------- tie of package eprint: the printer model against the real -E output and the token dump ----------------
+    tie_dist = {}; tie_nontriv = 0
+    if not os.environ.get('VERIF_SKIP_PROOFS'):
+        te, tie_nontriv, tie_dist, ts = run_tie(run, 'eprint', src, 150 if run.quick() else 1500, 'E-output')
+        evals += te; samples += ts
     cov = dict(evaluations=evals, distinct_nontrivial=len(nontriv),
                rule='(a) random token texts over identifiers, pp-number shapes (1e, 0x1p, 1., .5, 1e+ ...), literals with every prefix and all punctuators, with random spacing/comments, plus the repository sources: tokenizer dump = lexer model (kind, at_bol, has_space, spelling); (b) random macro programs (object-like and function-like macros with 0-3 token bodies, nested uses) gluing tokens without white space wherever the SOURCE allows it: tokens consumed by the compiler proper = tokens of the -E text, and -E is idempotent; programs whose preprocessing is itself an error are skipped (%d); (c) a valid program compiled directly and via its -E output; non-trivial = a macro program that preprocesses' % skipped,
                samples=samples, traces_validated_against_impl=len(files), fusing_pairs=len(fusing), skipped_invalid=skipped)
+    cov['rule'] = cov.get('rule', '') + ' (e) package eprint: boundary and random macro programs: bytes of chibicc -E = Coq model of print_tokens on the dumped token list; the -E text re-lexed by the Coq lexer model = the dumped tokens'; cov['tie_eprint'] = tie_dist; cov['distinct_nontrivial'] = cov.get('distinct_nontrivial', 0) + tie_nontriv
     return run.finish(cov,
         ['bytes >= 128 are identifier characters in the lexer model (UTF-8 decoding and the Annex D tables are C11\'s development); phases 1-2 (line splicing etc.) are C18\'s',
          'the token dump hook (-verif-dump-tokens, guarded by CHIBICC_VERIF) reports what the parser would receive'],
